@@ -69,7 +69,18 @@ class Weighted(Named):
         self.weight = 10 + i
 
 
-KINDS = ["node", "anynode", "user", "bucket", "alleq", "slots", "symlink", "slots2"]
+class SlotUser(NodeMixin):
+    """NodeMixin subclass that keeps part of its state in __slots__ (next to the inherited __dict__)"""
+
+    __slots__ = ("tags", "partner")
+
+    def __init__(self, i):
+        self.i = i
+        self.tags = ["t%d" % i]
+        self.partner = None
+
+
+KINDS = ["node", "anynode", "user", "bucket", "alleq", "slots", "symlink", "slots2", "slotuser"]
 
 
 def make(kind, pv, link_targets):
@@ -89,6 +100,9 @@ def make(kind, pv, link_targets):
             nd = Slots(i)
         elif kind == "slots2":
             nd = Named(i) if i % 2 == 0 else Weighted(i)
+        elif kind == "slotuser":
+            nd = SlotUser(i)
+            nd.partner = nodes[0] if nodes else None
         else:
             t = link_targets[i]
             nd = Node("n%d" % i, foo=i) if t is None else SymlinkNode(nodes[t])
@@ -102,6 +116,8 @@ def make(kind, pv, link_targets):
 def attrs_of(nd):
     if isinstance(nd, Slots):
         return ("slots", nd.i, nd.tag)
+    if isinstance(nd, SlotUser):
+        return ("slotuser", nd.i, list(nd.tags), None if nd.partner is None else nd.partner.i)
     if isinstance(nd, Named):
         return ("slots2", nd.i, nd.tag, getattr(nd, "weight", "<no weight>"))
     d = dict((k, v) for k, v in nd.__dict__.items() if k not in ("_NodeMixin__parent", "_NodeMixin__children", "target"))
@@ -140,7 +156,7 @@ def c19_body(cfg):
     parent, children = model_from_pv(pv)
     kind = KINDS[nondet_int(0, len(KINDS) - 1, "class")]
     entry = nondet_int(0, n - 1, "entry")
-    method = nondet_int(2 if kind in ("slots", "slots2") else 0, 6, "protocol_or_deepcopy")
+    method = nondet_int(2 if kind in ("slots", "slots2", "slotuser") else 0, 6, "protocol_or_deepcopy")
     link_targets = [None] * n
     other_tree_target = False
     if kind == "symlink":
@@ -193,6 +209,11 @@ def c19_body(cfg):
                 return dict(info, why="copy shares a node object with the original", node=x)
             if attrs_of(cidx[x]) != attrs_of(nodes[x]):
                 return dict(info, why="attributes differ", node=x, got=repr(attrs_of(cidx[x])), exp=repr(attrs_of(nodes[x])))
+            if kind == "slotuser":
+                if cidx[x].tags is nodes[x].tags:
+                    return dict(info, why="mutable slot value shared between copy and original", node=x)
+                if nodes[x].partner is not None and cidx[x].partner is not cidx[0]:
+                    return dict(info, why="slot referring to a tree node does not point at the copied counterpart", node=x)
             if link_targets[x] is not None:
                 t = cidx[x].target
                 if outside is not None and x == 1:
